@@ -538,6 +538,51 @@ def recursion(run, fx):
 
 
 # ---------------------------------------------------------------------------------------- LOOPLIMIT
+def adjustexec(run, fx, maxn=3):
+    """LOOPLIMIT, the flag the loop limit hangs on: Pass::runGraphite re-arms its loop counter whenever SlotMap::highpassed() is set, so
+    the flag may be set only while the cursor is really beyond the high-water slot.  Pass::adjustSlot, with the SlotMap / Slot / Segment
+    accessors inlined from their own CFGs, is interpreted on every stream of 1..maxn slots x high-water mark (a slot or none) x cursor
+    (a slot or null) x flag x advance -maxn-1..maxn+1, from every state that satisfies the invariant; afterwards it holds again:
+    highpassed() implies the cursor is null or lies after the high-water slot."""
+    from . import ordint as O
+    fn = fx.one('graphite2::Pass::adjustSlot')
+    PS, PM, PG = 'graphite2::Slot::', 'graphite2::SlotMap::', 'graphite2::Segment::'
+    cases = 0
+    for n in range(1, maxn + 1):
+        for h in [None] + list(range(n)):
+            for c in [None] + list(range(n)):
+                for hp in (False, True):
+                    if hp and h is not None and c is not None and not c > h:
+                        continue            # not a state the invariant admits
+                    if c is None and not hp and h is not None:
+                        pass                # null cursor, flag clear, mark set: adjustSlot reads this as 'before the first slot'
+                    for delta in range(-n - 1, n + 2):
+                        slots = [O.Rec() for _ in range(n)]
+                        for k, sl in enumerate(slots):
+                            sl[PS + 'm_next'] = O.Ptr(slots[k + 1]) if k + 1 < n else O.Ptr(None)
+                            sl[PS + 'm_prev'] = O.Ptr(slots[k - 1]) if k else O.Ptr(None)
+                            sl['#'] = k
+                        seg = O.Rec({PG + 'm_first': O.Ptr(slots[0]), PG + 'm_last': O.Ptr(slots[-1])})
+                        smap = O.Rec({PM + 'segment': seg, PM + 'm_highwater': O.Ptr(slots[h]) if h is not None else O.Ptr(None), PM + 'm_highpassed': hp})
+                        box = [O.Ptr(slots[c]) if c is not None else O.Ptr(None)]
+                        it = O.Interp(fx)
+                        it.MAX_STEPS = 4000
+                        cases += 1
+                        desc = '%d slot(s), high-water mark %s, cursor %s, highpassed %s, advance %d' % (n, 'none' if h is None else 'slot %d' % h, 'null' if c is None else 'slot %d' % c, hp, delta)
+                        try:
+                            it.call(fn, O.Rec(), [delta, O.LV(box, 0), smap])
+                        except O.Violation as v:
+                            return cases, '%s: %s (%s)' % (desc, v.what, v.loc)
+                        out = box[0]
+                        hp2 = smap[PM + 'm_highpassed']
+                        pos = out.rec['#'] if isinstance(out, O.Ptr) and out.rec is not None else None
+                        if hp2 and h is not None and pos is not None and not pos > h:
+                            return cases, ('%s: Pass::adjustSlot leaves the cursor on slot %d with highpassed() still set although the high-water mark is slot %d: Pass::runGraphite takes this as '
+                                           '"the rule went past the mark", resets its loop counter and puts the mark back at the same slot, so a rule that keeps returning there is never '
+                                           'stopped by the font\'s loop limit' % (desc, pos, h))
+    return cases, None
+
+
 def looplimit(run, fx):
     rg = fx.one('graphite2::Pass::runGraphite')
     # the counter: the integer local initialised from m_iMaxLoop
@@ -723,6 +768,16 @@ def run(run):
     const_(run, vm)
     recursion(run, fx)
     looplimit(run, fx)
+    from . import ordint as O_
+    try:
+        cases, bad = adjustexec(run, fx)
+        aj = fx.one('graphite2::Pass::adjustSlot')
+        if bad:
+            run.violated('LOOPLIMIT', 'highpassed() only beyond the high-water slot (adjustSlot interpreted)', aj.where(), bad)
+        else:
+            run.held('LOOPLIMIT', 'highpassed() only beyond the high-water slot (adjustSlot interpreted)', aj.where(), '%d abstract executions' % cases)
+    except O_.AnalysisBroken as ex:
+        run.broken('LOOPLIMIT', 'highpassed() only beyond the high-water slot (adjustSlot interpreted)', str(ex), '')
     advidx(run, fx)
     derived(run, fx)
     from . import c03, c16, c10
